@@ -43,7 +43,7 @@ from enum import Enum
 import numpy as np
 
 from ._libtoasty import subsample, mid
-from .image import Image
+from .image import Image, get_format_vertical_parity_sign
 from .progress import progress_bar
 from .pyramid import Pos, tiles_at_depth
 
@@ -732,7 +732,16 @@ class ToastSampler(object):
         self._sampler = sampler
         self._clobber = clobber
         self._format = format
-        self._invert_into_tiles = pio.get_default_vertical_parity_sign() == 1
+
+        # The vertical layout must follow the format that the tiles are
+        # actually stored in, which is the override only in clobber mode
+        # (updates always go through the pyramid's default format).
+        if clobber and format is not None:
+            tile_format = format
+        else:
+            tile_format = pio.get_default_format()
+
+        self._invert_into_tiles = get_format_vertical_parity_sign(tile_format) == 1
 
     def visit_callback(self, pos, tile):
         lon, lat = toast_tile_get_coords(tile)
